@@ -1364,6 +1364,113 @@ pub fn run_history(ch: &mut dyn Chooser, cfg: &Cfg, rep: &mut Report, want: &str
     violated
 }
 
+/// A DOM without a root (`WeakDom::default()`) is a DOM all the same: it can hold parentless instances, be the destination
+/// of clones and transfers, and its instances can be Ref targets. The lock-step model is built around rooted DOMs, so these
+/// few fixed steps are checked directly against the documented rules.
+fn rootless_scenario(rep: &mut Report, want: &str) {
+    let fid = |u: &UniqueId| uk(u);
+    let mut bad = |rep: &mut Report, prop: &str, sig: &str, what: String| {
+        if prop == want {
+            rep.violation(&format!("{}:rootless:{}", prop, sig), &what, json!({"cmd": "domops", "part": "rootless"}), J::Null);
+        }
+    };
+    let res = catch(|| {
+        let mut out: Vec<(&'static str, &'static str, String)> = vec![];
+        let shared_id = UniqueId::new(7, 7, 7);
+        let mut r = WeakDom::default();
+        let x = r.insert(Ref::none(), InstanceBuilder::new("Folder").with_name("x").with_property("UniqueId", shared_id));
+        let x2 = r.insert(x, InstanceBuilder::new("Folder").with_name("x2"));
+        let mut d = WeakDom::new(InstanceBuilder::new("DataModel"));
+        let root = d.root_ref();
+        let y = d.insert(root, InstanceBuilder::new("ObjectValue").with_name("y").with_property("Value", x).with_property("Link", x2).with_property("UniqueId", shared_id));
+        let z = d.insert(root, InstanceBuilder::new("ObjectValue").with_name("z").with_property("Value", y).with_property("Link", Ref::new()));
+        let get = |dom: &WeakDom, i: Ref, k: &str| dom.get_by_ref(i).and_then(|n| n.properties.get(&rbx_dom_weak::ustr(k)).cloned());
+        // -- clone_into_external into the rootless DOM
+        let c = d.clone_into_external(y, &mut r);
+        match r.get_by_ref(c) {
+            None => out.push(("C11", "copy-missing", "clone_into_external into a rootless DOM: the copy is not there".into())),
+            Some(ci) => {
+                if ci.parent().is_some() {
+                    out.push(("C11", "copy-not-parentless", "the copy has a parent".into()));
+                }
+                if get(&r, c, "Value") != Some(Variant::Ref(x)) || get(&r, c, "Link") != Some(Variant::Ref(x2)) {
+                    out.push(("C11", "kept-ref-lost", format!("Refs to instances the rootless destination contains came back as {:?} / {:?}", get(&r, c, "Value"), get(&r, c, "Link"))));
+                }
+                match get(&r, c, "UniqueId") {
+                    Some(Variant::UniqueId(u)) if fid(&u) == fid(&shared_id) => out.push(("C12", "collision-kept", "the copy kept an id the rootless destination already holds".into())),
+                    Some(Variant::UniqueId(_)) => {}
+                    other => out.push(("C12", "uid-lost", format!("the copy's UniqueId is {:?}", other))),
+                }
+            }
+        }
+        // -- clone_multiple_into_external: refs between the subtrees cloned together, and refs kept
+        let cm = d.clone_multiple_into_external(&[y, z], &mut r);
+        if cm.len() != 2 {
+            out.push(("C11", "multi-count", format!("{} copies for 2 referents", cm.len())));
+        } else {
+            if get(&r, cm[1], "Value") != Some(Variant::Ref(cm[0])) {
+                out.push(("C11", "multi-inside-ref", format!("z'.Value is {:?}, expected the copy of y", get(&r, cm[1], "Value"))));
+            }
+            if get(&r, cm[0], "Value") != Some(Variant::Ref(x)) {
+                out.push(("C11", "multi-kept-ref-lost", format!("y'.Value is {:?}, expected the destination's x", get(&r, cm[0], "Value"))));
+            }
+            if get(&r, cm[1], "Link") != Some(Variant::Ref(Ref::none())) {
+                out.push(("C11", "multi-dangling-not-null", format!("a Ref to nothing came back as {:?}", get(&r, cm[1], "Link"))));
+            }
+        }
+        if get(&d, y, "Value") != Some(Variant::Ref(x)) || d.get_by_ref(root).map(|n| n.children().to_vec()) != Some(vec![y, z]) {
+            out.push(("C11", "source-changed", "the source DOM changed".into()));
+        }
+        // -- transfer into the rootless DOM, under one of its instances
+        d.transfer(z, &mut r, x);
+        if d.get_by_ref(z).is_some() || d.get_by_ref(root).map(|n| n.children().to_vec()) != Some(vec![y]) {
+            out.push(("C09", "transfer-source", "after transfer the source still holds / lists the instance".into()));
+        }
+        if r.get_by_ref(z).map(|n| n.parent()) != Some(x) || r.get_by_ref(x).map(|n| n.children().to_vec()) != Some(vec![x2, z]) {
+            out.push(("C09", "transfer-dest", "after transfer into a rootless DOM parent and child list disagree".into()));
+        }
+        if get(&r, z, "Value") != Some(Variant::Ref(y)) {
+            out.push(("C10", "transfer-props", "transfer changed a property".into()));
+        }
+        // -- a parentless instance moves under another one, then the subtree is destroyed
+        r.transfer_within(c, x2);
+        if r.get_by_ref(c).map(|n| n.parent()) != Some(x2) || r.get_by_ref(x2).map(|n| n.children().to_vec()) != Some(vec![c]) {
+            out.push(("C09", "transfer-within", "transfer_within of a parentless instance in a rootless DOM".into()));
+        }
+        r.destroy(x);
+        for (n, i) in [("x", x), ("x2", x2), ("z", z), ("c", c)] {
+            if r.get_by_ref(i).is_some() {
+                out.push(("C09", "destroy-left", format!("{} can still be looked up after its ancestor was destroyed", n)));
+            }
+        }
+        if cm.len() == 2 && (r.get_by_ref(cm[0]).is_none() || r.get_by_ref(cm[1]).is_none()) {
+            out.push(("C10", "destroy-took-more", "destroy removed instances outside the named subtree".into()));
+        }
+        let held: Vec<UK> = [cm.first().copied(), cm.get(1).copied()].iter().flatten().filter_map(|i| r.get_unique_id(*i)).map(|u| uk(&u)).collect();
+        let book: HashSet<UK> = r.verif_unique_ids().iter().map(uk).collect();
+        if book != held.iter().copied().collect::<HashSet<UK>>() {
+            out.push(("C12", "bookkeeping", format!("rootless DOM: bookkeeping has {} ids, instances hold {}", book.len(), held.len())));
+        }
+        out
+    });
+    rep.evaluations += 1;
+    rep.count("rootless_scenario");
+    match res {
+        Ok(v) => {
+            for (p, sig, what) in v {
+                bad(rep, p, sig, what);
+            }
+        }
+        Err(p) => {
+            if p.file.contains("rbx_dom_weak") {
+                bad(rep, want, &format!("panic@{}", panic_sig(&p)), p.msg.clone());
+            } else {
+                rep.notes.push(format!("INCONCLUSIVE rootless scenario: harness panic {}", p.msg));
+            }
+        }
+    }
+}
+
 pub fn main(a: &Args) {
     let seed = a.u64("seed", 1);
     let count = a.u64("count", 100);
@@ -1373,6 +1480,9 @@ pub fn main(a: &Args) {
     let out = a.str("out", "/dev/stdout");
     let mode = a.str("mode", "random");
     let mut rep = Report::new(&want);
+    if shard == 0 && mode != "replay" {
+        rootless_scenario(&mut rep, &want);
+    }
     if mode == "exhaustive" {
         let cfg = Cfg {
             exhaustive: true,
